@@ -41,6 +41,21 @@ R6 per-run work happens for every exported run:
       called at least once;
    b. in all methods of these classes, the targets of a `for` loop without `break` are not read after the loop (a
       statement that reads them there runs once, for the last element only) (seeded change C34-3).
+R7 a de-duplication guard decides registration only: for every branch point of these classes' methods whose test asks
+   whether a key is already filed (`K in / not in self.graph`, `self.files_map`, also `.keys()`, `.get(K) is None`,
+   `__contains__`, through a local flag), the CFG nodes that run on one side of the test only (region of the edge, not
+   lexical nesting: `if K in self.graph: continue` is the same guard) may change `self` state and objects bound / created
+   on that side, or prepare the entity that is filed there (a side whose alternative can only raise is not examined: nothing
+   is skipped silently) -- they must not change (`.append/.extend/.add/.update/...`,
+   subscript / attribute store, `+=`, `x = x + ...`) an object that was bound outside the region and is not part of
+   `self`, unless the other side performs the same change.  Such an object is what the function builds for its caller
+   (the `value` list of a PropertyValue): an element whose entity is already in the graph -- same content as an earlier
+   file -- must still be *referenced* (seeded change C34-mut2: `value.append({'@id': ...})` slipped under
+   `if property_value['@id'] not in self.graph:`).
+
+Not decided: a de-duplication filter spelled as a comprehension condition (`[... for pv in pvs if pv['@id'] not in
+self.graph]`) or hidden in a helper that receives the accumulator as an argument (R7 sees only changes made by the
+function's own CFG nodes).
 
 Undecided: presence/size/checksum of the files actually written, JSON-LD validity, completeness of inputs/outputs beyond
 R5/R6 (that every port of every step is visited, that the database returns every token);
@@ -52,9 +67,10 @@ from __future__ import annotations
 
 import ast
 
+from ..facts import region
 from ..model import enclosing_stmt, parent, unparse
 from ..selftest import V
-from ._util_G import assign_nodes, const_str, expand, impure, is_call_to, norm, reaching
+from ._util_G import assign_nodes, const_str, def_value, expand, flow_values, impure, is_call_to, norm, reaching
 
 MOD = "streamflow.provenance.run_crate"
 FILE = "streamflow/provenance/run_crate.py"
@@ -67,7 +83,8 @@ META = {
         "subclasses; def-use + CFG (reaching `@id` definitions, rebinding between definition and store, dominance / "
         "must-pass-through for the files_map pairing); shape of the exported `@graph` and of the archive-writing loop; "
         "freshness of the hash object handed to the file checksum helper (reaching definitions + CFG cycles); operand structure of the "
-        "tests that decide between a value entity and `return None`; placement of per-workflow calls relative to the loop over self.workflows."
+        "tests that decide between a value entity and `return None`; placement of per-workflow calls relative to the loop over self.workflows; "
+        "CFG regions of the `K in self.graph / self.files_map` de-duplication guards and the objects changed inside them (reaching definitions)."
     ),
     "undecided": "presence, size and checksum of files in the archive; JSON-LD validity; that every input/output value is represented "
                  "(only: falsy values are not dropped by get_property_value, per-run hooks run for every exported workflow)",
@@ -782,8 +799,193 @@ def r6(ctx):
     ctx.require(nloops >= 20, f"C34.R6: only {nloops} loops examined")
 
 
-RULES = [("R1", r1), ("R2", r2), ("R3", r3), ("R4", r4), ("R5", r5), ("R6", r6)]
-FLOORS = {"R1": 30, "R2": 5, "R3": 1, "R4": 4, "R5": 3, "R6": 20}
+# --------------------------------------------------------------------------- R7
+
+_REGISTRIES = ("graph", "files_map")
+_MUTATORS = {"append", "extend", "insert", "add", "update", "setdefault", "pop", "popitem", "remove", "discard", "clear", "appendleft", "extendleft", "sort", "reverse"}
+_PART_OF = {"setdefault", "get"}  # methods that return a part of their receiver
+
+
+def _strip(e):
+    while isinstance(e, (ast.Await, ast.NamedExpr)) or (isinstance(e, ast.Call) and unparse(e.func) in ("cast", "typing.cast") and len(e.args) == 2):
+        e = e.args[1] if isinstance(e, ast.Call) else e.value
+    return e
+
+
+def _root(e):
+    """The expression whose object owns what `e` denotes: subscripts, attributes, casts and `.setdefault/.get` chains removed."""
+    while True:
+        e = _strip(e)
+        if isinstance(e, (ast.Subscript, ast.Starred)):
+            e = e.value
+        elif isinstance(e, ast.Attribute):
+            if isinstance(e.value, ast.Name) and e.value.id == "self":
+                return e.value
+            e = e.value
+        elif isinstance(e, ast.Call) and isinstance(e.func, ast.Attribute) and e.func.attr in _PART_OF:
+            e = e.func.value
+        else:
+            return e
+
+
+def _self_rooted(f, e, at: int, depth: int = 4) -> bool:
+    """`e`, evaluated at CFG node `at`, denotes (a part of) the state of `self`, possibly through local aliases."""
+    r = _root(e)
+    if not isinstance(r, ast.Name):
+        return False
+    if r.id == "self":
+        return True
+    if depth <= 0:
+        return False
+    ds = reaching(f, r.id, at)
+    if not ds or "param" in ds:
+        return False
+    for d in ds:
+        node = f.cfg.nodes[d]
+        v = def_value(f, r.id, d)
+        if v is None and node.kind == "iter" and isinstance(node.ast.target, ast.Name):
+            v = node.ast.iter  # `for entry in self.graph.values()`
+            if isinstance(v, ast.Call) and isinstance(v.func, ast.Attribute) and v.func.attr in ("values", "items") and not v.args:
+                v = v.func.value
+        if v is None or not _self_rooted(f, v, d, depth - 1):
+            return False
+    return True
+
+
+def _registry_test(f, test, at: int) -> str | None:
+    """Text of the membership question if `test` (evaluated at CFG node `at`) asks whether a key is filed in a registry of self."""
+    for e, _ in flow_values(f, test, at):
+        for n in [e, *ast.walk(e)]:
+            if isinstance(n, ast.Compare) and len(n.ops) == 1 and isinstance(n.ops[0], (ast.In, ast.NotIn)):
+                c = _strip(n.comparators[0])
+                if isinstance(c, ast.Call) and isinstance(c.func, ast.Attribute) and c.func.attr == "keys" and not c.args:
+                    c = c.func.value
+                for v, _d in flow_values(f, c, at):
+                    if any(_is_self_attr(v, r) for r in _REGISTRIES):
+                        return f"{unparse(n.left)} in self.{v.attr}"
+            elif isinstance(n, ast.Call) and isinstance(n.func, ast.Attribute) and n.func.attr in ("get", "__contains__") and len(n.args) == 1 \
+                    and any(_is_self_attr(n.func.value, r) for r in _REGISTRIES):
+                return f"{unparse(n.args[0])} in self.{n.func.value.attr}"
+            elif isinstance(n, ast.Name) and n is not e and isinstance(n.ctx, ast.Load) and n.id != "self":
+                # a flag computed earlier: `known = K in self.graph` ... `if not known:`
+                for v, d in flow_values(f, n, at):
+                    if v is not n and isinstance(_strip(v), (ast.Compare, ast.UnaryOp, ast.BoolOp)) and (q := _registry_test(f, v, d)):
+                        return q
+    return None
+
+
+def _accumulates(v, name: str) -> bool:
+    """`v` builds a new collection / sum out of the current value of local `name`: `name + ...`, `[*name, ...]`, `{**name, ...}`."""
+    def is_x(e):
+        return isinstance(e, ast.Name) and e.id == name
+
+    v = _strip(v) if v is not None else None
+    if isinstance(v, ast.BinOp):
+        return is_x(v.left) or is_x(v.right) or _accumulates(v.left, name) or _accumulates(v.right, name)
+    if isinstance(v, (ast.List, ast.Tuple, ast.Set)):
+        return any(isinstance(e, ast.Starred) and is_x(e.value) for e in v.elts)
+    if isinstance(v, ast.Dict):
+        return any(k is None and is_x(e) for k, e in zip(v.keys, v.values))
+    return False
+
+
+def _mutations(node):
+    """[(receiver expression, construct)] for the in-place changes made by CFG node `node` itself."""
+    out = []
+    a = node.ast
+    if node.kind == "stmt" and isinstance(a, (ast.Assign, ast.AnnAssign, ast.AugAssign)):
+        tg = a.targets if isinstance(a, ast.Assign) else [a.target]
+        for t in tg:
+            for x in (t.elts if isinstance(t, (ast.Tuple, ast.List)) else [t]):
+                if isinstance(x, (ast.Subscript, ast.Attribute)):
+                    out.append((x.value, a))
+                elif isinstance(x, ast.Name) and (isinstance(a, ast.AugAssign) or _accumulates(a.value, x.id)):
+                    out.append((x, a))  # accumulation: `x += ...`, `x = x + ...`, `x = [*x, ...]`
+    elif node.kind == "stmt" and isinstance(a, ast.Delete):
+        out.extend((t.value, a) for t in a.targets if isinstance(t, (ast.Subscript, ast.Attribute)))
+    for c in node.walk():
+        if isinstance(c, ast.Call) and isinstance(c.func, ast.Attribute) and c.func.attr in _MUTATORS:
+            out.append((c.func.value, c))
+    return out
+
+
+def _outer_objects(f, e, at: int, reg: set[int], depth: int = 4) -> list[str]:
+    """Locals bound *outside* the CFG region `reg` (or parameters) whose object is changed when the object denoted by
+    `e` at node `at` (inside `reg`) is changed, and which are not part of the state of `self`."""
+    r = _root(e)
+    if not isinstance(r, ast.Name) or r.id == "self":
+        return []  # self state, or a temporary created by this very expression
+    out = []
+    for d in reaching(f, r.id, at):
+        if d == "param":
+            out.append(r.id)
+        elif d in reg:
+            v = def_value(f, r.id, d)
+            if isinstance(f.cfg.nodes[d].ast, ast.AugAssign) or _accumulates(v, r.id):
+                continue  # the accumulation itself (reported at its own node)
+            if v is not None and depth > 0:
+                out.extend(_outer_objects(f, v, d, reg, depth - 1))  # alias taken inside the region
+        elif not _self_rooted(f, r, at):
+            out.append(r.id)
+    return out
+
+
+def _filed_here(f, reg: set[int]) -> set[str]:
+    """Locals handed to the state of self by the nodes of `reg` (`self.graph[K] = X`, `self.graph[..].append(X)`)."""
+    out: set[str] = set()
+    g = f.cfg
+    for u in reg:
+        for recv, what in _mutations(g.nodes[u]):
+            if not _self_rooted(f, recv, u):
+                continue
+            vals = [what.value] if isinstance(what, (ast.Assign, ast.AnnAssign, ast.AugAssign)) and what.value is not None else \
+                [*what.args, *(k.value for k in what.keywords)] if isinstance(what, ast.Call) else []
+            out |= {v.id for v in vals if isinstance(v, ast.Name)}
+    return out
+
+
+def r7(ctx):
+    p = ctx.prog
+    guards = 0
+    for f in _methods(p):
+        if f.is_abstract or not any(isinstance(n, ast.Attribute) and n.attr in _REGISTRIES for n in f.body_nodes()):
+            continue
+        g = f.cfg
+        for t in list(g.nodes.values()):
+            if t.kind != "test" or t.ast is None:
+                continue
+            q = _registry_test(f, t.ast, t.id)
+            if q is None:
+                continue
+            guards += 1
+            regs = {k: region(g, t.id, k) for k in ("t", "f")}
+            texts = {k: {unparse(w) for u in regs[k] for _, w in _mutations(g.nodes[u])} for k in regs}
+            bad = []
+            for k, other in (("t", "f"), ("f", "t")):
+                # the other side only raises: an error check, everything after it is "this side" (nothing is skipped silently)
+                if g.exit not in g.reach([b for b, kk in g.succ[t.id] if kk == other], include_src=True):
+                    continue
+                filed = None
+                for u in sorted(regs[k]):
+                    for recv, what in _mutations(g.nodes[u]):
+                        outer = _outer_objects(f, recv, u, regs[k])
+                        if not outer or unparse(what) in texts[other]:
+                            continue
+                        if filed is None:
+                            filed = _filed_here(f, regs[k])
+                        outer = [x for x in outer if x not in filed]
+                        if outer:
+                            bad.append((what, outer[0], k))
+            w = bad[0] if bad else None
+            ctx.ob("R7", f"{f.name}: the guard `{q}` decides registration only", not bad, func=f, node=(w[0] if w else t.ast), instance=f"dedup-guard:{q}",
+                   message=(f"{f.name}: `{unparse(w[0])[:80]}` changes `{w[1]}` only on the {'true' if w[2] == 't' else 'false'} side of the de-duplication guard "
+                            f"`{unparse(t.ast)[:60]}`: `{w[1]}` is built for the caller, not part of the registry -- an element whose entity is already filed (same "
+                            "content as an earlier file) is referenced / described differently from a new one in the exported value") if w else "")
+    ctx.require(guards >= 6, f"C34.R7: only {guards} de-duplication guards (`K in self.graph / self.files_map`) found")
+
+
+RULES = [("R1", r1), ("R2", r2), ("R3", r3), ("R4", r4), ("R5", r5), ("R6", r6), ("R7", r7)]
+FLOORS = {"R1": 30, "R2": 5, "R3": 1, "R4": 4, "R5": 3, "R6": 20, "R7": 6}
 
 _PFT = f"{CWL}._process_file_token"
 _CA = f"{BASE}.create_archive"
@@ -829,6 +1031,18 @@ _RP_ALT = "        if 'alternateName' in part:\n            part['alternateName'
 _RP_STORE = "        self.files_map[path] = part['@id']\n        if part['@id'] not in self.graph:\n            self.graph[part['@id']] = part\n"
 _RP_TMP_ID = "part_id = os.path.join(prefix, part['@id'])\n        part['@id'] = part_id\n"
 _RP_TMP_STORE = "        self.files_map[path] = part_id\n        if part_id not in self.graph:\n            self.graph[part_id] = part\n"
+
+# normalised text of the File / Dataset branch of get_property_value's ListToken loop (seeded change C34-mut2 moves the
+# `value.append` of the element reference under the de-duplication guard)
+_LT_GUARD = "                if property_value['@id'] not in self.graph:\n"
+_LT_HP = "self.graph['./']['hasPart'].append({'@id': property_value['@id']})\n"
+_LT_ST = "self.graph[property_value['@id']] = property_value\n"
+_LT_REF = "value.append({'@id': property_value['@id']})\n"
+_I16, _I20 = " " * 16, " " * 20
+_LT = _LT_GUARD + _I20 + _LT_HP + _I20 + _LT_ST + _I16 + _LT_REF
+_GT_GUARD = "if (path := cwl_tool.id.split('#')[0][7:]) not in self.files_map:\n            self.graph['./']['hasPart'].append({'@id': entity_id})\n            self.files_map[path] = os.path.basename(path)\n"
+_GT_SHA = "jsonld_tool['sha1'] = _file_checksum(path, hashlib.new('sha1', usedforsecurity=False))\n"
+_DS_GUARD = "if dataset['@id'] not in self.graph:\n                self.graph['./']['hasPart'].append({'@id': dataset['@id']})\n"
 
 VARIANTS = [
     # ---- breaking
@@ -887,6 +1101,24 @@ VARIANTS = [
     V("create_archive: add_initial_inputs dropped", FILE, _CA, "        " + _AII, "        pass\n", "R6"),
     V("create_archive: output values of the last run only (loop variable read after the loop)", FILE, _CA, "    for file in additional_files or []:",
       "    logger.info(f'exported {wf_id + 1} runs of {workflow.name}')\n    for file in additional_files or []:", "R6"),
+    # R7 (seeded change C34-mut2 and siblings)
+    V("get_property_value: element reference appended only when its entity is new (seeded C34-mut2)", FILE, _GPV, _LT,
+      _LT_GUARD + _I20 + _LT_HP + _I20 + _LT_ST + _I20 + _LT_REF, "R7", control=True),
+    V("get_property_value: `continue` when the entity is already filed, reference appended after it", FILE, _GPV, _LT,
+      "                if property_value['@id'] in self.graph:\n" + _I20 + "continue\n" + _I16 + _LT_HP + _I16 + _LT_ST + _I16 + _LT_REF, "R7"),
+    V("get_property_value: reference accumulated with `value = value + [...]` under a flag computed from the guard", FILE, _GPV, _LT,
+      "                is_new = not property_value['@id'] in self.graph\n                if is_new:\n" + _I20 + _LT_HP + _I20 + _LT_ST + _I20
+      + "value = value + [{'@id': property_value['@id']}]\n", "R7"),
+    V("get_property_value: reference appended only when the entity is already filed", FILE, _GPV, _LT,
+      _LT_GUARD + _I20 + _LT_HP + _I20 + _LT_ST + _I16 + "else:\n" + _I20 + _LT_REF, "R7"),
+    V("get_property_value: guard spelled `self.graph.get(..) is None`, reference through an alias of the accumulator", FILE, _GPV, _LT,
+      "                if self.graph.get(property_value['@id']) is None:\n" + _I20 + _LT_HP + _I20 + _LT_ST + _I20 + "refs = value\n" + _I20
+      + "refs.append({'@id': property_value['@id']})\n", "R7"),
+    V("_get_tool: sha1 of the tool computed only when its file is registered for the first time", FILE, f"{CWL}._get_tool", _GT_GUARD + "        " + _GT_SHA,
+      _GT_GUARD + "            " + _GT_SHA, "R7"),
+    V("_get_property_values: returned mapping pruned when the entity is already filed", FILE, f"{BASE}._get_property_values",
+      "            self.graph[property_value['@id']] = property_value\n", "            self.graph[property_value['@id']] = property_value\n        else:\n"
+      "            dependencies = set()\n            property_value.pop('exampleOfWork', None)\n", "R7"),
     # temporaries for part['@id'] (shape of refactoring B11-7) that are *not* the current @id
     V("_rename_parts: @id temporary rebound between the @id assignment and the graph store", FILE, _RP, _RP_ID + _RP_ALT + _RP_STORE,
       _RP_TMP_ID + _RP_ALT + "        self.files_map[path] = part['@id']\n        part_id = os.path.basename(part_id)\n        if part_id not in self.graph:\n            self.graph[part_id] = part\n", "R1"),
@@ -934,4 +1166,19 @@ VARIANTS = [
       "            if part['alternateName'] not in self.graph[part['@id']]['alternateName']:\n                self.graph[part['@id']]['alternateName'].append(part['alternateName'])",
       "graph_entry = self.graph[part['@id']]\n            if not isinstance(graph_entry['alternateName'], MutableSequence):\n                graph_entry['alternateName'] = [graph_entry['alternateName']]\n"
       "            alternate_name = part['alternateName']\n            if alternate_name not in graph_entry['alternateName']:\n                graph_entry['alternateName'].append(alternate_name)", None),
+    # R7: other spellings of "register if new, reference always"
+    V("benign: reference appended on both sides of the guard", FILE, _GPV, _LT,
+      _LT_GUARD + _I20 + _LT_HP + _I20 + _LT_ST + _I20 + _LT_REF + _I16 + "else:\n" + _I20 + _LT_REF, None),
+    V("benign: guard with swapped polarity, reference after it", FILE, _GPV, _LT,
+      "                if property_value['@id'] in self.graph:\n" + _I20 + "pass\n" + _I16 + "else:\n" + _I20 + _LT_HP + _I20 + _LT_ST + _I16 + _LT_REF, None),
+    V("benign: guard through a flag, reference built before it", FILE, _GPV, _LT,
+      "                ref = {'@id': property_value['@id']}\n                is_new = ref['@id'] not in self.graph.keys()\n                if is_new:\n"
+      + _I20 + "self.graph['./']['hasPart'].append(ref)\n" + _I20 + _LT_ST + _I16 + "value.append(ref)\n", None),
+    V("benign: references collected in a list created under the guard", FILE, _PFT, _DS_GUARD,
+      "if dataset['@id'] not in self.graph:\n                new_refs = []\n                new_refs.append({'@id': dataset['@id']})\n"
+      "                self.graph['./']['hasPart'].extend(new_refs)\n", None),
+    V("benign: the entity filed under the guard is completed there", FILE, _PFT, _DS_GUARD, _DS_GUARD + "                dataset['name'] = token_value['basename']\n", None),
+    V("benign: registry entry updated through an alias when the key is already filed", FILE, _PFT, _DS_GUARD,
+      "if dataset['@id'] in self.graph:\n                known = self.graph[dataset['@id']]\n                known.setdefault('alternateName', dataset['alternateName'])\n"
+      "            else:\n                self.graph['./']['hasPart'].append({'@id': dataset['@id']})\n", None),
 ]
